@@ -21,7 +21,9 @@ RUNS = {
                 'MatchIn("flow_mod", MFlags2 \\cup MBits(BitsQ) \\cup MTypes \\cup MVals, "q") \\cup '
                 'UNION {MatchIn(k, MFlags1 \\cup MTypes, "q") : k \\in MatchKinds \\ {"match", "flow_mod"}}',
                 "AroundOne"),
-    "q_mod": ("Modified", "AroundOne"),
+    "q_mod": ("Modified \\cup NXModified", "AroundOne"),
+    "q_nx": ("NXUniform(TopKindsNX) \\cup NXDeviations(TopKindsNX) \\cup NXShapes({0, 1, 2, 3, 4, 5})", "AroundBoth"),
+    "q_nxm": ("NXEntries \\cup NXRegs", "AroundOne"),
     # thorough tier (in addition)
     "t_pairs": ("Pairs(%s)" % OF, "AroundOne"),
     "t_shapes": ("Payloads(0..40 \\cup {63, 64, 65, 127, 128, 129, 255, 256, 257, 1023, 1024, 1498, 1499, 1500}) "
@@ -30,6 +32,7 @@ RUNS = {
     "t_match_other": ('UNION {MatchIn(k, MFlagsAll \\cup MBits(BitsT) \\cup MTypes \\cup MVals, "t") : '
                       'k \\in MatchKinds \\ {"match", "flow_mod"}}', "AroundOne"),
     "t_long": ("Longest(0)", "AroundOne"),
+    "t_nx": ("NXPairs(TopKindsNX) \\cup NXShapes(0..9) \\cup NXEntriesT", "AroundOne"),
 }
 
 
@@ -43,6 +46,13 @@ def main():
     lines += ["INVARIANT Export", "CHECK_DEADLOCK FALSE"]
     with open(os.path.join(D, "MC_%s.cfg" % name), "w") as f:
       f.write("\n".join(lines) + "\n")
+  # layout export for the adapter
+  with open(os.path.join(D, "MC_layout.tla"), "w") as f:
+    f.write("---- MODULE MC_layout ----\nEXTENDS MCOFWire\nTheCases == {}\nTheAround == {}\n"
+            "ASSUME PrintT(<<\"L\", ToJson(Layout)>>)\n"
+            "ASSUME PrintT(<<\"N\", ToJson([fields |-> NxmFields, maskable |-> NxmMaskable])>>)\n====\n")
+  with open(os.path.join(D, "MC_layout.cfg"), "w") as f:
+    f.write("CONSTANTS\n  Cases <- TheCases\n  Around <- TheAround\nINIT Init\nNEXT Next\nCHECK_DEADLOCK FALSE\n")
   # trace validation (code -> spec)
   lines = ["CONSTANTS", "  Cases <- MCNoCases", "  Around <- AroundBoth", "INIT TrInit", "NEXT TrNext",
            "CONSTRAINT Progress", "POSTCONDITION Accepted"]
